@@ -8,7 +8,8 @@ Three comparisons on every generated history of configuration calls (library + g
     intermediate points) the *call record* of a `simulate` on the reference integrator: the states of the
     model the solver integrates, the variable bound to `pace`, the protocol attached at run time, the
     sensitivities requested, which named state / constant received which position of the argument
-    vector (or which fixed value), the logged variables.
+    vector (or which fixed value), the logged variables; and the shapes `simulate` returns for an empty
+    time grid (they come from the hidden counter `_n_sensitivity_parameters`).
 (b) the property on the real code (`ctx.spec`): chi after the history  vs  a freshly constructed chi
     object to which only the net configuration (Lean `MechConfig.net`, the formal definition of "net")
     is applied — names, counts, outputs, regimen, simulated values and sensitivities; and the reported
@@ -30,6 +31,7 @@ import refsim
 REQUIRED_THEOREMS = [
     'C11_refines', 'C11_net_config', 'C11_net_config_state', 'C11_reported_regimen_applied',
     'C11_simulate_never_raises', 'C11_admin_rejects_missing_outputs',
+    'C11_sens_count_matches_solver', 'C11_empty_grid_shape',
     'C11_canonical_reaches', 'C11_fresh_by_canonical_calls', 'C11_net_config_by_calls', 'C11_canon_structural',
     'C11_copy_same', 'C11_copy_same_history', 'C11_copy_independent', 'C11_flag_matches_solver',
     'C11_legacy_eq_now', 'C11_legacy_net_config_partial', 'C11_flag_matches_solver_legacy',
@@ -41,7 +43,8 @@ RULE = ('histories of set_administration / set_dosing_regimen / set_outputs / se
         '(valid and invalid arguments) on 4 library and 3 generated SBML models; quick: random, length <= 8; '
         'thorough: exhaustive to length 4 over a reduced alphabet on the one-compartment model and to length 3 '
         'over a second alphabet (wrap / fix / rename) on the erlotinib model and a third (two dosable '
-        'compartments, depot outputs) on a generated two-compartment model, then random to length 20; non-trivial = history with >= 2 successful calls of different kinds; distinct = '
+        'compartments, depot outputs) on a generated two-compartment model and a fourth (re-selection of '
+        'sensitivities: same-size subsets, on / off, fix-swap through the wrapper), then random to length 20; non-trivial = history with >= 2 successful calls of different kinds; distinct = '
         'distinct (model, sequence of call kinds with their outcome)')
 ASSUMPTIONS = [
     'the ODE solution is a function of the solver call record (refsim stands in for CVODES); C09/C10 are '
@@ -374,6 +377,7 @@ def observe(live, simulate=True):
         o['values'] = None
         o['sens_values'] = None
         o['applied'] = 'raises'
+        o['emptyGrid'] = empty_grid(m, p)
         return o
     if isinstance(res, tuple):
         o['values'] = np.asarray(res[0], float).tolist()
@@ -398,7 +402,30 @@ def observe(live, simulate=True):
     o['sim'] = [info['states'], info['pace'], o['applied'],
                 None if sens is None else [list(sens[0]), list(sens[1])],
                 state_assign, const_assign, list(run['log'])]
+    o['emptyGrid'] = empty_grid(m, p)
     return o
+
+
+def empty_grid(m, p):
+    """`simulate` on an empty time grid: [rows of the output block, columns of the sensitivity block or None];
+    'bad-shape:…' if the blocks do not have the documented shapes; None if it raises"""
+    try:
+        with np.errstate(all='ignore'), QuietStdout():
+            res = m.simulate(np.array(p), [])
+    except Exception:  # noqa
+        drain()
+        return None
+    drain()
+    if isinstance(res, tuple):
+        out, sens = np.asarray(res[0]), np.asarray(res[1])
+        if out.ndim != 2 or out.shape[1] != 0 or sens.ndim != 3 or sens.shape[0] != 0 \
+                or sens.shape[1] != out.shape[0]:
+            return 'bad-shape:%s/%s' % (out.shape, sens.shape)
+        return [int(out.shape[0]), int(sens.shape[2])]
+    out = np.asarray(res)
+    if out.ndim != 2 or out.shape[1] != 0:
+        return 'bad-shape:%s' % (out.shape,)
+    return [int(out.shape[0]), None]
 
 
 def lean_obs(v, with_sim=True):
@@ -406,6 +433,7 @@ def lean_obs(v, with_sim=True):
     d = {'params': v[0], 'n': v[1], 'outputs': v[2], 'regimen': v[3], 'hasSens': v[4]}
     if with_sim:
         d['sim'] = v[5]
+        d['emptyGrid'] = v[6]
     return d
 
 
@@ -422,6 +450,7 @@ class Gen:
         self.kit = kit
         self.counter = 0
         self.fix_counter = 0
+        self.last_sens = None
 
     def fresh_name(self, stem):
         self.counter += 1
@@ -498,6 +527,16 @@ class Gen:
                 if free_defaults:
                     pairs[0][1] = self.pick(free_defaults)
             return [k, pairs]
+        if k == 'sens' and not live.wrapped and self.last_sens and m.has_sensitivities() and rng.random() < 0.45:
+            # a second request for a DIFFERENT selection of the SAME size (round-3 seed C11-5: anything cached
+            # per "shape" of a request — counts, lengths — is stale exactly here)
+            cur = list(dict.fromkeys(str(x) for x in m.parameters()))
+            if len(cur) > len(self.last_sens):
+                for _ in range(6):
+                    names = self.subset(cur, len(self.last_sens), len(self.last_sens))
+                    if set(names) != set(self.last_sens):
+                        self.last_sens = names
+                        return ['sens', True, names]
         if k == 'sens':
             on = bool(rng.random() < 0.7)
             u = rng.random()
@@ -509,13 +548,23 @@ class Gen:
                 return ['sens', on, None]
             if u < 0.62:
                 return ['sens', on, ['no_such_parameter']]
-            return ['sens', on, self.subset([str(x) for x in m.parameters()], 1, 3)]
+            names = self.subset([str(x) for x in m.parameters()], 1, 3)
+            if on:
+                self.last_sens = names
+            return ['sens', on, names]
         if k == 'fix':
             if not live.wrapped:
                 return ['fix', [['x', 0]]]                        # AttributeError
             # (a Python dict cannot repeat a key: two parameters may display the same name after renaming one
             # to the default name of a depot parameter and then selecting the indirect route)
             cur = list(dict.fromkeys(str(x) for x in live.inner().parameters()))
+            free = [str(x) for x in m.parameters()]
+            fixed = [x for x in cur if x not in free]
+            if fixed and free and rng.random() < 0.35:
+                # one call that releases a fixed parameter and fixes a free one: the number of free parameters
+                # (and of sensitivity columns) stays, their identity changes
+                self.fix_counter += 1
+                return ['fix', [[self.pick(fixed), None], [self.pick(free), self.fix_counter - 1]]]
             names = self.subset(cur, 1, 2)
             pairs = []
             for nme in names:
@@ -636,6 +685,14 @@ def same_behaviour(a, b, ignore_sens=False):
         rec_b = [sb[0], sb[1], sb[2], sb[4], sb[5], sb[6]] + ([] if ignore_sens else [sb[3]])
         if rec_a != rec_b:
             diffs.append('call-record')
+    ea, eb = a.get('emptyGrid'), b.get('emptyGrid')
+    if isinstance(ea, str) or isinstance(eb, str):
+        diffs.append('empty-grid-shape')
+    elif ignore_sens:
+        if (ea is None) != (eb is None) or (ea is not None and ea[0] != eb[0]):
+            diffs.append('empty-grid')
+    elif ea != eb:
+        diffs.append('empty-grid')
     return diffs
 
 
@@ -676,7 +733,9 @@ def run_history(ctx, kit, source, length, label, sim_prob=0.15, copy_check=False
         ctx.agree('C11.observe_public', public[i], lean_obs(ref[1][i + 1], False), dict(inp, after_step=i))
     for i, o in mid_sims.items():
         ctx.agree('C11.simulate_record', o['sim'], lean_obs(ref[1][i + 1])['sim'], dict(inp, after_step=i))
+        ctx.agree('C11.empty_grid', o['emptyGrid'], lean_obs(ref[1][i + 1])['emptyGrid'], dict(inp, after_step=i))
     ctx.agree('C11.simulate_record', final['sim'], lean_obs(ref[1][-1])['sim'], inp)
+    ctx.agree('C11.empty_grid', final['emptyGrid'], lean_obs(ref[1][-1])['emptyGrid'], inp)
     # the object machine is the configuration machine (theorem C11_net_config, re-checked on this input)
     ctx.agree('C11.model_eq_spec', [ref[0], ref[1]], [spec[0], spec[1]], inp)
     classes = history_classes(ops, outcomes)
@@ -707,7 +766,14 @@ def run_history(ctx, kit, source, length, label, sim_prob=0.15, copy_check=False
                       'history': {k: final.get(k) for k in ('params', 'n', 'outputs', 'regimen', 'hasSens', 'raised')},
                       'fresh': {k: fobs.get(k) for k in ('params', 'n', 'outputs', 'regimen', 'hasSens', 'raised')}})
             # the fresh object itself must be what the model says a fresh object is
-            ctx.agree('C11.fresh_object', dict(public_part(fobs), sim=fobs['sim']), spec_final, inp)
+            ctx.agree('C11.fresh_object', dict(public_part(fobs), sim=fobs['sim'], emptyGrid=fobs['emptyGrid']), spec_final, inp)
+    # the empty time grid returns the shapes of a regular simulate (theorem C11_empty_grid_shape), on chi alone
+    for after, o in [(None, final)] + sorted(mid_sims.items()):
+        if o.get('values') is not None:
+            cols = None if o['sens_values'] is None else len(o['sens_values'][0][0])
+            ctx.spec('C11.empty_grid_shape', o['emptyGrid'] == [len(o['values']), cols],
+                     inp if after is None else dict(inp, after_step=after),
+                     {'empty_grid': o['emptyGrid'], 'regular': [len(o['values']), cols]})
     # simulate never raises after a history of configuration calls (theorem C11_simulate_never_raises)
     ctx.spec('C11.simulate_runs', final['applied'] != 'raises', inp, {'raised': final.get('raised')})
     # reported regimen = applied protocol
@@ -760,7 +826,7 @@ def copy_checks(ctx, kit, live, before, ops, rng, explicit=None, minimal=False):
     # the model's copy
     mc = ctx.model('C11.run', kit.base(), False, ops + [['copy']])
     m_orig, m_copy = lean_obs(mc[1][-2]), lean_obs(mc[1][-1])
-    ctx.agree('C11.copy_observe', dict(public_part(cobs), sim=cobs['sim']), m_copy, inp)
+    ctx.agree('C11.copy_observe', dict(public_part(cobs), sim=cobs['sim'], emptyGrid=cobs['emptyGrid']), m_copy, inp)
     diffs = same_behaviour(before, cobs, ignore_sens=True)
     if cobs['hasSens']:
         diffs.append('copy has sensitivities enabled')      # documented: copying resets them
@@ -842,6 +908,22 @@ WITNESSES = [
     ('names_swapped_across_two_calls', [['pn', [['central.size', 'V']]],
                                         ['pn', [['global.elimination_rate', 'central.size']]],
                                         ['adm', 'central', 'drug_amount', False], ['sens', True, ['central.size']]]),
+    ('sens_reselect_same_size', [['sens', True, ['central.size']], ['sens', True, ['global.elimination_rate']]]),
+    ('sens_reselect_same_size_dosed', [['adm', 'central', 'drug_amount', False], ['reg', 1],
+                                       ['sens', True, ['dose.absorption_rate', 'central.size']],
+                                       ['sens', True, ['central.drug_amount', 'global.elimination_rate']]]),
+    ('sens_reselect_after_rename', [['sens', True, ['central.size']], ['pn', [['central.size', 'V']]],
+                                    ['sens', True, ['central.drug_amount']]]),
+    ('sens_reselect_via_fix_swap', [['wrap'], ['fix', [['central.size', 0]]], ['sens', True, None],
+                                    ['fix', [['central.size', None], ['global.elimination_rate', 1]]]]),
+    ('sens_all_then_all_after_outputs', [['sens', True, None], ['out', ['central.drug_concentration']],
+                                         ['sens', True, None]]),
+    ('rename_to_a_displayed_name', [['pn', [['central.size', 'V']]], ['pn', [['global.elimination_rate', 'V']]]]),
+    ('rename_back_to_default', [['pn', [['central.size', 'V']]], ['pn', [['V', 'central.size']]],
+                                ['pn', [['global.elimination_rate', 'V']]]]),
+    ('rename_to_former_depot_name', [['adm', 'central', 'drug_amount', False], ['adm', 'central', 'drug_amount', True],
+                                     ['pn', [['central.size', 'dose.absorption_rate']]],
+                                     ['sens', True, ['dose.absorption_rate']]]),
     ('stale_output_then_indirect', [['adm', 'central', 'drug_amount', False], ['out', ['dose.drug_amount']],
                                     ['adm', 'central', 'drug_amount', True],
                                     ['adm', 'central', 'drug_amount', False]]),
@@ -851,6 +933,14 @@ WITNESSES = [
 def exhaustive_alphabet():
     return [['adm', 'central', 'drug_amount', True], ['adm', 'central', 'drug_amount', False], ['reg', 0],
             ['out', ['central.drug_amount']], ['pn', [['central.size', 'V']]], ['sens', True, None], ['copy']]
+
+
+def exhaustive_alphabet_sens():
+    """re-selection of sensitivities: same-size selections, on / off, through the wrapper by fixing"""
+    return [['adm', 'central', 'drug_amount', True], ['sens', True, None], ['sens', False, None],
+            ['sens', True, ['central.drug_amount']], ['sens', True, ['global.elimination_rate']],
+            ['out', ['central.drug_concentration']], ['wrap'], ['fix', [['central.size', 0]]],
+            ['fix', [['central.size', None], ['global.elimination_rate', 1]]]]
 
 
 def exhaustive_alphabet_wrapped():
@@ -880,13 +970,20 @@ def run(ctx):
         if ctx.tier == 'quick':
             n_cases, max_len = 200, 8
         else:
-            n_cases, max_len = 1500, 20
+            n_cases, max_len = 1000, 20
             alpha = exhaustive_alphabet()
             idx = [[]]
             for depth in range(4):
                 idx = [s + [a] for s in idx for a in range(len(alpha))]
                 for s in idx:
                     ctx.guard(run_history, ctx, kits['one_comp'], [list(alpha[a]) for a in s], len(s), 'exhaustive')
+            alpha = exhaustive_alphabet_sens()
+            idx = [[]]
+            for depth in range(3):
+                idx = [s + [a] for s in idx for a in range(len(alpha))]
+                for s in idx:
+                    ctx.guard(run_history, ctx, kits['one_comp'], [list(alpha[a]) for a in s], len(s),
+                              'exhaustive-sens')
             alpha = exhaustive_alphabet_wrapped()
             idx = [[]]
             for depth in range(3):
